@@ -1,10 +1,10 @@
 package props
 
 import (
-	"math"
 	"context"
 	"encoding/json"
 	"fmt"
+	"math"
 	"strings"
 	"sync/atomic"
 	"testing"
@@ -34,8 +34,8 @@ type DeadlineCase struct {
 	// FarDeadline: the cancellable contexts are derived from a parent whose
 	// deadline lies ten minutes ahead (cancellation comes first). Derived: the
 	// context handed over is a child (WithValue) of the one described.
-	FarDeadline bool   `json:"far_deadline,omitempty"`
-	Derived     bool   `json:"derived,omitempty"`
+	FarDeadline bool `json:"far_deadline,omitempty"`
+	Derived     bool `json:"derived,omitempty"`
 	// PrepHistory: what the evaluator went through before the context under
 	// test was given to it: "" (nothing), "validate-first" (a Prepare without any
 	// context, as hosts do to validate a script), "other-context-first" (a
@@ -46,7 +46,7 @@ type DeadlineCase struct {
 	// same, still living context) that ends in a recovered fault: the script
 	// starts with "if ( Boom ) { <fault> }" and that run's object sets Boom.
 	FaultFirst string `json:"fault_first,omitempty"`
-	Msg         string `json:"message,omitempty"`
+	Msg        string `json:"message,omitempty"`
 }
 
 type c09Key struct{}
